@@ -6,7 +6,8 @@ Kept changes are copied to /verif/seeded/<Cxx>-<N>/ (patch.diff, demo.rs, meta.j
 import json, os, shutil, subprocess, sys, glob
 from concurrent.futures import ThreadPoolExecutor
 
-SEED = "/tmp/seed"
+SEED = os.environ.get("SEED_DIR", "/tmp/seed")
+OFFSET = int(os.environ.get("SEED_OFFSET", "0"))
 OUT = "/verif/seeded"
 WORK = "/tmp/vconfirm"
 
@@ -57,7 +58,7 @@ def main():
     items = []
     for d in sorted(glob.glob(f"{SEED}/C*/out/*")):
         if os.path.exists(f"{d}/patch.diff") and os.path.exists(f"{d}/demo.rs"):
-            pid = d.split("/")[3]; n = d.split("/")[-1]
+            pid = d.split("/")[3]; n = str(int(d.split("/")[-1]) + OFFSET)
             if len(sys.argv) > 1 and f"{pid}-{n}" not in sys.argv[1:] and pid not in sys.argv[1:]:
                 continue
             items.append((pid, n, d))
@@ -71,7 +72,7 @@ def main():
     os.makedirs(OUT, exist_ok=True)
     for rec in allres:
         pid, n = rec["id"].split("-")
-        d = f"{SEED}/{pid}/out/{n}"
+        d = f"{SEED}/{pid}/out/{int(n) - OFFSET}"
         if rec.get("kept"):
             o = f"{OUT}/{rec['id']}"
             os.makedirs(o, exist_ok=True)
@@ -81,6 +82,8 @@ def main():
             meta["confirm_commands"] = ["git apply patch.diff", "cargo check --offline --all-features", "cargo test --offline", "cp demo.rs tests/demo.rs; cargo test --offline --test demo (fails)", "git checkout -- src; cargo test --offline --test demo (passes)"]
             json.dump(meta, open(f"{o}/meta.json", "w"), indent=1)
     json.dump(allres, open(f"{WORK}/confirm.json", "w"), indent=1)
-    shutil.copy(f"{WORK}/confirm.json", f"{OUT}/confirm.json")
+    prev = json.load(open(f"{OUT}/confirm.json")) if os.path.exists(f"{OUT}/confirm.json") else []
+    ids = {r["id"] for r in allres}
+    json.dump([r for r in prev if r["id"] not in ids] + allres, open(f"{OUT}/confirm.json", "w"), indent=1)
     print("kept", sum(1 for r in allres if r.get("kept")), "of", len(allres))
 main()
